@@ -133,6 +133,8 @@ pub fn pool() -> Vec<Term> {
         Term::lit("\\"),
         Term::re("a*b"),
         Term::re("i[a-f]"),
+        // a literal whose text is also a regex with another meaning (`r"a+"` is in the pool)
+        Term::lit("a+"),
     ]
 }
 
@@ -630,21 +632,116 @@ fn run_c10(ctx: &mut Ctx) {
         if !ctx.begin_case(k as u64) {
             continue;
         }
+        c10_term(ctx, &dir, t, &probes, k % 997 == 5);
+        ctx.end_case();
+    }
+    // The same text as a literal and as a regex, generated one after the other by ONE process
+    // (anything the generator remembers between grammars - a cache keyed by the terminal's text -
+    // would hand the second one the meaning of the first), in both orders.
+    if ctx.replay.is_none() && ctx.shard == 0 && ctx.begin_case(u64::MAX / 4) {
+        for (i, text) in [".", "a+", "a*", "a?", "a|b", "[ab]", "(a)", "a{2}", "\\d", "a.", "b+", "b*", "b?", "b|a", "[ba]", "(b)", "b{2}", "\\w", "b.", ".a"].iter().enumerate() {
+            let (first, second) = if i < 10 { (Term::lit(text), Term::re(text)) } else { (Term::re(text), Term::lit(text)) };
+            c10_term(ctx, &dir, &first, &probes, false);
+            c10_term(ctx, &dir, &second, &probes, false);
+            ctx.count("same_text_pairs");
+        }
+        // long inputs: every two-character word over a multi-script alphabet in ONE input, so
+        // that the lazy DFA of the runtime builds (and, if its cache is small, rebuilds) many
+        // states within a single tokenization
+        c10_long_inputs(ctx, &dir);
+        ctx.end_case();
+    }
+}
+
+fn c10_long_inputs(ctx: &mut Ctx, dir: &Path) {
+    let alpha: Vec<char> = "aZ9éßøÅλΩжЖдאבجدकखあア漢字한ก𝔘".chars().collect();
+    let terms = [Term::re("\\p{Lu}+"), Term::re("\\p{Nd}+"), Term::re("\\p{Lu}\\p{Ll}+"), Term::re("\\p{L}[\\p{L}\\p{Nd}_]*"), Term::re("\\p{Lo}\\p{Lo}")];
+    for set in [vec![0usize, 1, 3], vec![0, 1, 2, 3], vec![4, 1, 0]] {
+        let ts: Vec<&Term> = set.iter().map(|i| &terms[*i]).collect();
+        let text = format!("grammar;\npub S: () = {{ {} }};\n", ts.iter().map(|t| format!("{} => ()", t.render())).collect::<Vec<_>>().join(", "));
+        let lx = match build_lexer(ctx, dir, &text) {
+            Ok(Some(l)) => l,
+            Ok(None) => continue,
+            Err(out) => {
+                // overlapping classes at equal precedence are refused: not this check's business
+                ctx.count("long_input_grammars_rejected");
+                let _ = out;
+                continue;
+            }
+        };
+        let mut words: Vec<String> = vec![];
+        for a in &alpha {
+            for b in &alpha {
+                words.push(format!("{}{}", a, b));
+            }
+        }
+        let input = words.join(" ");
+        ctx.count("long_inputs");
+        // reference, word by word: each word is either one token of the longest-matching terminal
+        // set, or the lexer stops there; since words are separated by blanks, tokenization of the
+        // whole input is the concatenation of the tokenizations of the words
+        let mut expected: Vec<(usize, usize)> = vec![];
+        let mut stop: Option<usize> = None;
+        let mut off = 0usize;
+        'words: for w in &words {
+            let mut pos = 0usize;
+            while pos < w.len() {
+                let rest = &w[pos..];
+                let mut best = 0usize;
+                let mut ends: Vec<usize> = rest.char_indices().map(|(i, _)| i).skip(1).collect();
+                ends.push(rest.len());
+                for e in ends {
+                    if ts.iter().any(|t| t.full_match(&rest[..e])) {
+                        best = e;
+                    }
+                }
+                if best == 0 {
+                    stop = Some(off + pos);
+                    break 'words;
+                }
+                expected.push((off + pos, off + pos + best));
+                pos += best;
+            }
+            off += w.len() + 1;
+        }
+        let mut got: Vec<(usize, usize)> = vec![];
+        let mut got_stop: Option<usize> = None;
+        for item in lx.builder.matcher::<&str>(&input) {
+            match item {
+                Ok((l, _, r)) => got.push((l, r)),
+                Err(e) => {
+                    if let lalrpop_util::ParseError::InvalidToken { location } = e {
+                        got_stop = Some(location);
+                    }
+                    break;
+                }
+            }
+            ctx.count("pairs");
+        }
+        if got != expected || got_stop != stop {
+            let first = got.iter().zip(expected.iter()).position(|(a, b)| a != b).unwrap_or(got.len().min(expected.len()));
+            ctx.violation("long-input-tokenized-differently", format!("terminals {:?}: a {}-byte input of {} two-character words is tokenized differently from its words taken one by one: first difference at token #{} (expected {:?} / stop {:?}, got {:?} / stop {:?})", ts.iter().map(|t| t.render()).collect::<Vec<_>>(), input.len(), words.len(), first, expected.get(first), stop, got.get(first), got_stop), json!({"grammar": text, "input_words": words.len()}));
+        }
+    }
+}
+
+/// one terminal per grammar: the generated lexer must match exactly the terminal's own language
+fn c10_term(ctx: &mut Ctx, dir: &Path, t: &Term, probes: &[String], sample: bool) {
+    {
+        {
         let text = format!("grammar;\npub S: () = {} => ();\n", t.render());
         ctx.case_detail(&json!({"grammar": text, "term": t}));
-        let lx = match build_lexer(ctx, &dir, &text) {
+        let lx = match build_lexer(ctx, dir, &text) {
             Err(out) => {
                 if let Some(p) = &out.panic {
                     ctx.note("panic_sample", json!({"grammar": text, "panic": p}));
                 }
                 // a well-formed literal/regex of the family must be accepted
                 ctx.violation(if t.lit { "literal-rejected" } else { "regex-rejected" }, format!("{} rejected: {}", t.render(), out.diag.lines().next().unwrap_or("")), json!({"grammar": text, "term": t}));
-                ctx.end_case();
-                continue;
+                return;
             }
             Ok(None) => {
-                ctx.end_case();
-                continue;
+                return;
             }
             Ok(Some(l)) => l,
         };
@@ -653,7 +750,7 @@ fn run_c10(ctx: &mut Ctx) {
         } else {
             ctx.count("regexes");
         }
-        let mut strs: Vec<String> = probes.clone();
+        let mut strs: Vec<String> = probes.to_vec();
         if t.lit {
             let s = &t.src;
             strs.push(s.clone());
@@ -700,12 +797,13 @@ fn run_c10(ctx: &mut Ctx) {
                 break;
             }
         }
-        if k % 997 == 5 {
+        if sample {
             ctx.sample(json!({"terminal": t.render(), "lifted": lx.list}));
         }
-        ctx.end_case();
+        }
     }
 }
+
 
 // ---------------------------------------------------------------------------------------
 // C11
